@@ -61,6 +61,41 @@ func specScan(src string) []specTok {
 	return out
 }
 
+// specScanLenient: as specScan, but errors that concern the encoding of the text only (invalid
+// UTF-8, NUL bytes, a byte order mark) do not make the text unscannable: the scanner still delivers
+// the token boundaries, and containment of a comment is a question of token boundaries. (A file
+// with such bytes is rejected by the formatter, which is C02's subject, not a leak.)
+func specScanLenient(src string) []specTok {
+	var s scanner.Scanner
+	fset := gotoken.NewFileSet()
+	file := fset.AddFile("", fset.Base(), len(src))
+	errs := 0
+	s.Init(file, []byte(src), func(_ gotoken.Position, msg string) {
+		switch {
+		case len(msg) >= 22 && msg[:22] == "illegal UTF-8 encoding":
+		case len(msg) >= 21 && msg[:21] == "illegal character NUL":
+		case len(msg) >= 23 && msg[:23] == "illegal byte order mark":
+		default:
+			errs++
+		}
+	}, scanner.ScanComments)
+	var out []specTok
+	for {
+		_, tok, lit := s.Scan()
+		if tok == gotoken.EOF {
+			break
+		}
+		out = append(out, specTok{tok, lit})
+	}
+	if errs > 0 {
+		return nil
+	}
+	if out == nil {
+		out = []specTok{}
+	}
+	return out
+}
+
 func specRuneLitValue(lit string) int {
 	if len(lit) < 3 || lit[0] != '\'' || lit[len(lit)-1] != '\'' {
 		return -1
@@ -225,6 +260,14 @@ func verifReadTempFile(p string) (string, bool) {
 
 func verifEffectFailed(i int) bool { return false }
 
+// verifFSFailed: symbolically, some file-system operation of this path failed (the environment
+// decides); natively no fault is injected.
+func verifFSFailed() bool { return false }
+
+// verifFSCreatedMode: symbolically the mode with which this run created the file (-1: it did not
+// create it); natively not observed (-1).
+func verifFSCreatedMode(name string) int { return -1 }
+
 // specIsGoReserved: s is a Go keyword or a predeclared (universe scope) identifier —
 // computed from go/token and go/types, not from jennifer's own list.
 func specIsGoReserved(s string) bool {
@@ -275,7 +318,7 @@ func specTagLookup(lit, conventional, key, val string) bool {
 
 // specIsOneComment: s scans as exactly one comment token and nothing else.
 func specIsOneComment(s string) bool {
-	toks := specScan(s)
+	toks := specScanLenient(s)
 	if toks == nil {
 		return false
 	}
